@@ -97,6 +97,20 @@ func genC15Request(r *Rng) c15req {
 			}
 			m.M = append(m.M, KV{f.Key, v})
 		}
+		if src != 0 {
+			// the other spelling of a list parameter next to the one the field reads (`tags=..&tags[]=..`): another parameter,
+			// not part of this field
+			for _, f := range root.Fields {
+				if f.N.Kind != "slice" || !r.P(0.2) {
+					continue
+				}
+				if tag, ok := f.Tag("form"); ok && tag == f.Key+"[]" {
+					m.M = append(m.M, KV{"!" + f.Key, VS("strayP" + []string{"J", "F", "Q"}[src])})
+				} else if !ok {
+					m.M = append(m.M, KV{"!" + f.Key + "[]", VL(VS("strayB"+[]string{"J", "F", "Q"}[src]))})
+				}
+			}
+		}
 		return m
 	}
 	rq.j, rq.f, rq.q = rec(0), rec(1), rec(2)
